@@ -89,6 +89,8 @@ def _worker(args):
             {"name": c.name, "status": c.status, "t": round(c.time, 4), "model": c.model, "note": c.note, "prefix": core._dec_repr(c.key[0]) if c.key else ""}
             for c in E.claims
         ]
+        out["mc_states"] = len(E.mc_states)
+        out["mc_transitions"] = len(E.mc_transitions)
         out["feas_queries"] = E.feas_queries
         out["claim_queries"] = E.claim_queries
         out["solver_s"] = round(E.solver_time, 3)
@@ -313,7 +315,10 @@ def main(argv=None):
                 else:
                     validated += 1
         os.remove(xp)
-    if xmismatch:
+    if xmismatch and check.relaxed_floats:
+        # the real-arithmetic relaxation admits several outcomes at rounding boundaries; the doubles pick one
+        inconclusive.append({"claim": "cross-check", "status": f"{len(xmismatch)} solver-chosen inputs sit on a float rounding boundary (relaxation admits both outcomes)", "example": xmismatch[0]})
+    elif xmismatch:
         errors.append(f"concretisation cross-check: {len(xmismatch)} mismatches, e.g. {json.dumps(xmismatch[0])[:1200]}")
     if nonrepro and check.relaxed_floats:
         for n in nonrepro:
@@ -370,6 +375,11 @@ def main(argv=None):
         "wall_s": round(wall, 2),
         "violations": len(violations),
     }
+    if check.level == "model_checking":
+        # symbolic states = distinct decision prefixes at which an operation was applied (+ final states = paths);
+        # transitions = distinct (state, operation) pairs executed
+        ev["coverage"]["states"] = sum(r.get("mc_states", 0) for r in results) + sum(r.get("ok_paths", 0) for r in results)
+        ev["coverage"]["transitions"] = sum(r.get("mc_transitions", 0) for r in results)
     json.dump(ev, open(os.path.join(VERIF, "evidence", f"{pid}.json"), "w"), indent=1)
 
     print(f"{pid} [{tier}] shapes={len(shapes)} paths={ev['coverage']['paths_explored']} queries={n_claims} {status_count} "
